@@ -131,22 +131,24 @@ extern "C" int clients()
 // ------------------------------------------------------------------------------------------------ listeners and establishers
 struct AcceptedCB : public Server::Client::ICallback
 {
-  unsigned reads, writes, closed; Server::Client* self;
-  AcceptedCB() : reads(0), writes(0), closed(0), self(0) {}
-  virtual void onRead() { ++reads; byte b[4]; usize n = 0; self->read(b, 4, n); }
-  virtual void onWrite() { ++writes; }
-  virtual void onClosed() { ++closed; g_p->remove(*(ClientImpl*)self); }
+  unsigned reads, writes, closed; Server::Client* self; bool removed;
+  AcceptedCB() : reads(0), writes(0), closed(0), self(0), removed(false) {}
+  virtual void onRead() { vf_assert(!removed, "a removed client never receives another callback"); ++reads; byte b[4]; usize n = 0; self->read(b, 4, n); }
+  virtual void onWrite() { vf_assert(!removed, "a removed client never receives another callback"); ++writes; }
+  virtual void onClosed() { vf_assert(!removed, "a removed client never receives another callback"); ++closed; g_p->remove(*(ClientImpl*)self); }
 };
 struct ListenCB : public Server::Listener::ICallback
 {
-  AcceptedCB client; unsigned accepted; bool refuse; bool removeSelf; Server::Listener* self; bool removed;
-  ListenCB() : accepted(0), refuse(false), removeSelf(false), self(0), removed(false) {}
+  AcceptedCB client; unsigned accepted; bool refuse; bool removeSelf; bool removeClient; Server::Listener* self; bool removed;
+  ListenCB() : accepted(0), refuse(false), removeSelf(false), removeClient(false), self(0), removed(false) {}
   virtual Server::Client::ICallback* onAccepted(Server::Client& c, uint32 ip, uint16 port)
   {
     vf_assert(!removed, "a removed listener never receives another callback");
     ++accepted;
     if(removeSelf) { removed = true; g_p->remove(*(Server::Private::ListenerImpl*)self); }     // stop listening from inside the callback
-    if(refuse) return 0; client.self = &c; return &client;
+    if(refuse) return 0; client.self = &c;
+    if(removeClient) { client.removed = true; g_p->remove(*(ClientImpl*)&c); }     // gives up on the new client, but still returns its handler
+    return &client;
   }
 };
 struct EstCB : public Server::Establisher::ICallback
@@ -161,7 +163,7 @@ extern "C" int accept_connect()
   {
     Server::Private p; g_p = &p;
     ListenCB lcb; EstCB ecb;
-    lcb.refuse = vf_pick(2); lcb.removeSelf = vf_pick(2);
+    lcb.refuse = vf_pick(2); lcb.removeSelf = vf_pick(2); lcb.removeClient = !lcb.refuse && vf_pick(2);
     Server::Listener* l = p.listen(Socket::loopbackAddress, 7000, lcb);
     vf_assert(l != 0, "listen"); lcb.self = l;
     Server::Establisher* e = p.connect(Socket::loopbackAddress, 7001, ecb);
@@ -175,7 +177,8 @@ extern "C" int accept_connect()
     vf_assert(lcb.accepted == ((what & 1) ? 1u : 0u), "an acceptable listener is dispatched exactly once per pending connection, an idle one never");
     vf_assert(ecb.connected + ecb.abolished == ((what & 2) ? 1u : 0u), "a connected establisher is dispatched exactly once, a pending one never");
     vf_assert(lcb.client.reads == 0 && lcb.client.writes == 0 && ecb.client.reads == 0 && ecb.client.writes == 0, "new clients get no read/write event while nothing is readable and no backlog exists");
-    if((what & 1) && !lcb.refuse)
+    if((what & 1) && lcb.removeClient) vf_assert(p._clients.size() == ((what & 2) && ecb.connected ? 1u : 0u), "a client removed inside onAccepted is gone");
+    if((what & 1) && !lcb.refuse && !lcb.removeClient)
     {
       // data for the accepted client: exactly a read notification
       int cfd = (int)((ClientImpl*)lcb.client.self)->getFileDescriptor();
@@ -256,6 +259,26 @@ extern "C" int closed_timer()
     p.run();                                       // returns through the timer's interrupt()
     vf_assert(cb.closed == 1, "a failed read is followed by onClosed");
     vf_assert(g_late.count == 1, "the timer created from onClosed was activated");
+  }
+  vf_reach("end");
+  return 0;
+}
+
+// a timer with interval 0 (or a negative one): run() stays interruptible and the other timer still gets its turn
+struct ZeroCB : public Server::Timer::ICallback
+{
+  unsigned count;
+  virtual void onActivated() { ++count; if(count >= 3) g_p->interrupt(); vf_assert(count < 64, "run() does not return although interrupt() was called (timer with interval <= 0)"); }
+};
+extern "C" int zero_interval()
+{
+  {
+    Server::Private p; g_p = &p;
+    ZeroCB z; z.count = 0;
+    int64 interval = vf_pick(2) ? 0 : -5;
+    vf_assert(p.time(interval, z) != 0, "time()");
+    p.run();
+    vf_assert(z.count >= 3, "the timer was activated");
   }
   vf_reach("end");
   return 0;
